@@ -1,2 +1,2 @@
 (* C10 half (b): the statements/lemmas that Properties/C10.v (and C12.v) re-export *)
-From GV Require Export Common.Outcome C10.YpModel C10.YpSpec C10.YpProofs.
+From GV Require Export Common.Outcome C10.YpModel C10.YpSpec C10.YpProofs C10.YpTotal.
